@@ -1,0 +1,75 @@
+/*
+ * Copyright (C) 2024 Nuts community
+ *
+ * This program is free software: you can redistribute it and/or modify
+ * it under the terms of the GNU General Public License as published by
+ * the Free Software Foundation, either version 3 of the License, or
+ * (at your option) any later version.
+ *
+ * This program is distributed in the hope that it will be useful,
+ * but WITHOUT ANY WARRANTY; without even the implied warranty of
+ * MERCHANTABILITY or FITNESS FOR A PARTICULAR PURPOSE.  See the
+ * GNU General Public License for more details.
+ *
+ * You should have received a copy of the GNU General Public License
+ * along with this program.  If not, see <https://www.gnu.org/licenses/>.
+ *
+ */
+
+package dag
+
+import (
+	"crypto/ecdsa"
+	"crypto/elliptic"
+	"crypto/rand"
+	"testing"
+	"time"
+
+	"github.com/lestrrat-go/jwx/v2/jwa"
+	"github.com/lestrrat-go/jwx/v2/jwk"
+	"github.com/lestrrat-go/jwx/v2/jws"
+	"github.com/nuts-foundation/nuts-node/crypto/hash"
+	"github.com/stretchr/testify/assert"
+	"github.com/stretchr/testify/require"
+)
+
+// signedWith creates a transaction with an embedded key of the given curve, signed with the given algorithm.
+func signedWith(t *testing.T, alg jwa.SignatureAlgorithm, curve elliptic.Curve) Transaction {
+	key, err := ecdsa.GenerateKey(curve, rand.Reader)
+	require.NoError(t, err)
+	publicJWK, err := jwk.FromRaw(key.Public())
+	require.NoError(t, err)
+	headers := jws.NewHeaders()
+	for name, value := range map[string]interface{}{
+		jws.AlgorithmKey:   alg,
+		jws.ContentTypeKey: "foo/bar",
+		jws.CriticalKey:    []string{signingTimeHeader, versionHeader, previousHeader, lamportClockHeader},
+		jws.JWKKey:         publicJWK,
+		lamportClockHeader: 0,
+		signingTimeHeader:  time.Now().UTC().Unix(),
+		versionHeader:      1,
+		previousHeader:     []string{},
+	} {
+		require.NoError(t, headers.Set(name, value))
+	}
+	data, err := jws.Sign([]byte(hash.SHA256Sum([]byte("payload")).String()), jws.WithKey(alg, key, jws.WithProtectedHeaders(headers)))
+	require.NoError(t, err)
+	tx, err := ParseTransaction(data)
+	require.NoError(t, err)
+	return tx
+}
+
+func TestTransactionSignatureVerifier_AlgorithmMustFitKey(t *testing.T) {
+	t.Run("ok - ES384 with a P-384 key", func(t *testing.T) {
+		err := NewTransactionSignatureVerifier(nil)(nil, signedWith(t, jwa.ES384, elliptic.P384()))
+		assert.NoError(t, err)
+	})
+	t.Run("error - ES256 with a P-384 key", func(t *testing.T) {
+		err := NewTransactionSignatureVerifier(nil)(nil, signedWith(t, jwa.ES256, elliptic.P384()))
+		assert.ErrorContains(t, err, "does not fit the signing key")
+	})
+	t.Run("error - ES384 with a P-256 key", func(t *testing.T) {
+		err := NewTransactionSignatureVerifier(nil)(nil, signedWith(t, jwa.ES384, elliptic.P256()))
+		assert.ErrorContains(t, err, "does not fit the signing key")
+	})
+}
